@@ -105,7 +105,7 @@ func spawnSites(fn *ssa.Function) (sites []ssa.Instruction) {
 	if p == nil {
 		return nil
 	}
-	for _, b := range p.Blocks {
+	for _, b := range core.Blocks(p) {
 		for _, in := range b.Instrs {
 			if c, ok := in.(ssa.CallInstruction); ok {
 				if mc, ok := c.Common().Value.(*ssa.MakeClosure); ok && mc.Fn == fn {
@@ -243,7 +243,7 @@ func c19(w *core.World, r *core.Report) {
 		for _, a := range gd.AnonFuncs {
 			// the forwarder: has a select receiving from a channel of GetDataResponse
 			var sel *ssa.Select
-			for _, b := range a.Blocks {
+			for _, b := range core.Blocks(a) {
 				for _, in := range b.Instrs {
 					if x, ok := in.(*ssa.Select); ok {
 						sel = x
